@@ -12,6 +12,8 @@ import (
 	"log/slog"
 	"net/http"
 	"time"
+
+	"github.com/cinar/indicator/v2/helper"
 )
 
 // TiingoMeta is the response from the meta endpoint.
@@ -151,6 +153,7 @@ func (r *TiingoRepository) GetSince(name string, date time.Time) (<-chan *Snapsh
 	}
 
 	if res.StatusCode != 200 {
+		helper.CloseAndLogErrorWithLogger(res.Body, "Unable to close respose.", r.Logger)
 		return nil, fmt.Errorf("request failed with %s", res.Status)
 	}
 
@@ -158,6 +161,7 @@ func (r *TiingoRepository) GetSince(name string, date time.Time) (<-chan *Snapsh
 
 	go func() {
 		defer close(snapshots)
+		defer helper.CloseAndLogErrorWithLogger(res.Body, "Unable to close respose.", r.Logger)
 
 		decoder := json.NewDecoder(res.Body)
 
@@ -182,12 +186,6 @@ func (r *TiingoRepository) GetSince(name string, date time.Time) (<-chan *Snapsh
 		_, err = decoder.Token()
 		if err != nil {
 			r.Logger.Error("GetSince failed.", "error", err)
-			return
-		}
-
-		err = res.Body.Close()
-		if err != nil {
-			r.Logger.Error("Unable to close respose.", "error", err)
 		}
 	}()
 
@@ -211,11 +209,13 @@ func (r *TiingoRepository) LastDate(name string) (time.Time, error) {
 	}
 
 	if res.StatusCode != 200 {
+		helper.CloseAndLogErrorWithLogger(res.Body, "Unable to close respose.", r.Logger)
 		return lastDate, fmt.Errorf("request failed with %s", res.Status)
 	}
 
 	body, err := io.ReadAll(res.Body)
 	if err != nil {
+		helper.CloseAndLogErrorWithLogger(res.Body, "Unable to close respose.", r.Logger)
 		return lastDate, err
 	}
 
